@@ -34,6 +34,21 @@ impl LimitedVectorProblem for Ranges {
     fn domain(&self) -> Vec<std::ops::Range<f64>> { self.dom.iter().map(|&(a, b)| a..b).collect() }
 }
 
+/// A `LimitedVectorProblem` over `usize` (the element type of `RandomSpread` is generic).
+struct NatRanges { dom: Vec<(usize, usize)> }
+impl Problem for NatRanges {
+    type Encoding = Vec<usize>;
+    type Objective = SingleObjective;
+    fn name(&self) -> &str { "nat-ranges" }
+}
+impl VectorProblem for NatRanges {
+    type Element = usize;
+    fn dimension(&self) -> usize { self.dom.len() }
+}
+impl LimitedVectorProblem for NatRanges {
+    fn domain(&self) -> Vec<std::ops::Range<usize>> { self.dom.iter().map(|&(a, b)| a..b).collect() }
+}
+
 /// `(dom (a b) ..)`: one pair = the same range in each of `dim` dimensions, several = one per dimension.
 fn dom_of(x: &Sx, dim: usize) -> Vec<(f64, f64)> {
     let (_, pairs) = x.head().unwrap();
@@ -59,14 +74,18 @@ fn exec<P: Problem>(c: &dyn Component<P>, p: &P, s: &mut State<P>) -> Result<(),
 
 /// `(bnd OP KIND (dom (a b)..) SEED (pop (x..)..))` → `((r1 (x..)..) (r2 (x..)..) (w s..))`:
 /// the population after one and after two applications, and (for `otn`) the absolute STANDARD normal
-/// deviates a twin generator with the same seed produces — the script the model consumes
+/// deviates a twin generator with the same seed produces — the script the model consumes first
 /// (`Normal::new(0, σ).sample` is `0 + σ·z`, so the component's `|sample|` is `σ·|z|`).
-fn run_bnd(a: &[Sx]) -> String {
+/// `(bnds OP KIND (dom ..) SEED (stack (pop ..) (pop ..) ..))` is the same on a whole population stack
+/// (last = current): `((r1 (pop ..) ..) (r2 (pop ..) ..) (w ..))` shows EVERY population after each application.
+fn run_bnd(a: &[Sx], as_stack: bool) -> String {
     let op = a[0].atom().unwrap();
     let seed = a[3].nat().unwrap();
-    let (_, sols) = a[4].head().unwrap();
-    let sols: Vec<Vec<f64>> = sols.iter().map(fl).collect();
-    let dim = sols.iter().map(|s| s.len()).max().unwrap_or(0);
+    let (_, body) = a[4].head().unwrap();
+    let pops: Vec<Vec<Vec<f64>>> = if as_stack {
+        body.iter().map(|p| p.head().unwrap().1.iter().map(fl).collect()).collect()
+    } else { vec![body.iter().map(fl).collect()] };
+    let dim = pops.iter().flatten().map(|s| s.len()).max().unwrap_or(0);
     let problem = Ranges { dom: dom_of(&a[2], dim) };
     let comp: Box<dyn Component<Ranges>> = match op {
         "sat" => Saturation::new(),
@@ -78,22 +97,31 @@ fn run_bnd(a: &[Sx]) -> String {
     let mut state: State<Ranges> = State::new();
     state.insert(Populations::<Ranges>::new());
     state.insert(Random::new(seed));
-    state.populations_mut().push(sols.iter().map(|s| Individual::new_unevaluated(s.clone())).collect());
-    let snap = |state: &State<Ranges>| -> Vec<String> {
-        state.populations().current().iter().map(|i| fs(i.solution())).collect()
+    for p in &pops {
+        state.populations_mut().push(p.iter().map(|s| Individual::new_unevaluated(s.clone())).collect());
+    }
+    let snap = |state: &State<Ranges>, tag: &str| -> String {
+        let pops = state.populations();
+        if as_stack {
+            let h = pops.len();
+            // peek(0) is the current population: print bottom first
+            tagged(tag, (0..h).rev().map(|d| tagged("pop", pops.peek(d).iter().map(|i| fs(i.solution())))))
+        } else {
+            tagged(tag, pops.current().iter().map(|i| fs(i.solution())))
+        }
     };
     if let Err(e) = exec(comp.as_ref(), &problem, &mut state) { return e; }
-    let r1 = snap(&state);
+    let r1 = snap(&state, "r1");
     if let Err(e) = exec(comp.as_ref(), &problem, &mut state) { return e; }
-    let r2 = snap(&state);
+    let r2 = snap(&state, "r2");
     let mut w = vec![];
     if op == "otn" {
         let mut twin = Random::new(seed);
         let dist: Normal<f64> = Normal::new(0., 1.).unwrap();
-        let k = 32 + 8 * sols.iter().map(|s| s.len()).sum::<usize>();
+        let k = 32 + 8 * pops.last().map(|p| p.iter().map(|s| s.len()).sum::<usize>()).unwrap_or(0);
         w = (0..k).map(|_| fx(dist.sample(&mut twin).abs())).collect();
     }
-    list([tagged("r1", r1), tagged("r2", r2), tagged("w", w)])
+    list([r1, r2, tagged("w", w)])
 }
 
 /// `(init KIND N DIM H SEED [(dom ..) | P])` → `(HEIGHT (below t|f) (pop (ind EVAL sol)..))`.
@@ -132,6 +160,18 @@ fn run_init(a: &[Sx]) -> String {
             let p = Ranges { dom };
             go(&p, RandomSpread::new(n), h, seed, marker, |s| fs(s))
         }
+        "spreadn" => {
+            let (_, pairs) = a[5].head().unwrap();
+            let v: Vec<(usize, usize)> = pairs.iter().map(|p| { let it = p.items().unwrap(); (it[0].nat().unwrap() as usize, it[1].nat().unwrap() as usize) }).collect();
+            let dom = if v.len() == 1 { vec![v[0]; dim] } else { v };
+            let marker: Vec<usize> = dom.iter().map(|d| d.0).collect();
+            let p = NatRanges { dom };
+            go(&p, RandomSpread::new(n), h, seed, marker, |s| nats(s.iter().map(|&x| x as u64)))
+        }
+        "bitsu" => {
+            let p = OneMax::new(dim);
+            go(&p, RandomBitstring::new_uniform(n), h, seed, vec![false; dim], |s| list(s.iter().map(|&x| b(x))))
+        }
         "perm" => {
             let p = Tsp::new(vec![vec![1.0; dim]; dim]);
             go(&p, RandomPermutation::new(n), h, seed, (0..dim).collect(), |s| nats(s.iter().map(|&x| x as u64)))
@@ -148,8 +188,10 @@ fn run_init(a: &[Sx]) -> String {
 fn run_case(input: &Sx) -> String {
     let (name, a) = input.head().expect("tagged list");
     match name {
-        "bnd" => run_bnd(a),
+        "bnd" => run_bnd(a, false),
+        "bnds" => run_bnd(a, true),
         "init" => run_init(a),
+        "rem" => fx(a[0].float().unwrap().rem_euclid(a[1].float().unwrap())),
         _ => panic!("unknown case {name}"),
     }
 }
@@ -287,12 +329,14 @@ fn site_of(input: &Sx) -> String {
     if name == "init" {
         return match a[0].atom().unwrap() {
             "empty" => "Empty".into(), "spread" => "RandomSpread".into(),
-            "perm" => "RandomPermutation".into(), _ => {
+            "perm" => "RandomPermutation".into(), "spreadn" => "RandomSpread<usize>".into(),
+            "bitsu" => "RandomBitstring::new_uniform".into(), _ => {
                 let p = a[5].float().unwrap();
                 if (0.0..=1.0).contains(&p) { "RandomBitstring".into() } else { "RandomBitstring!malformed".into() }
             }
         };
     }
+    if name == "rem" { return "f64::rem_euclid".into(); }
     format!("{}@{}", op_name(a[0].atom().unwrap()), a[1].atom().unwrap())
 }
 
@@ -394,6 +438,58 @@ fn main() {
             emit(&mut runner, bnd_input_dom(op, "huge", dom, a.seed, &sols));
         }
     }
+    // ---- 3b. larger dimensions and populations, kinds MIXED per coordinate (inside coordinates next to ones that
+    //          are repaired; a chunked or size-dependent fast path would show here)
+    let mixed_coord = |rng: &mut Sm, lo: f64, hi: f64| -> f64 {
+        let d = hi - lo;
+        match rng.below(6) {
+            0 => *rng.pick(&bound_points(lo, hi)),
+            1 => { let g = grid_points(lo, hi); g[rng.below(14) as usize] }
+            2 => lo + rng.unit() * d,
+            3 => { let f = fold_points(lo, hi); f[rng.below(f.len() as u64) as usize] }
+            4 => *rng.pick(&huge_points()),
+            _ => lo + (rng.unit() * 2.0 - 0.5) * d * 10f64.powi(rng.range(0, 4) as i32 - 1),
+        }
+    };
+    let n_big = if a.thorough { 600 } else { 120 };
+    for it in 0..n_big {
+        let &(lo, hi) = rng.pick(&DOMAINS);
+        let op = OPS[it % OPS.len()];
+        let dim = *rng.pick(&[5usize, 7, 8, 9, 15, 16, 17, 31, 32, 33]);
+        let n = *rng.pick(&[1usize, 4, 5, 8, 9, 16, 17, 40]);
+        let sols: Vec<Vec<f64>> = (0..n).map(|_| (0..dim).map(|_| mixed_coord(&mut rng, lo, hi)).collect()).collect();
+        emit(&mut runner, bnd_input(op, "big", lo, hi, rng.next() % 100000, &sols));
+    }
+    // ---- 3c. population STACKS: only the current (top-most) population may change; populations below hold
+    //          out-of-bounds coordinates, too, and must come back bit-identical; empty populations; empty stack
+    for op in OPS { emit(&mut runner, format!("(bnds {} empty-stack {} 0 (stack))", op, dom_s(&[(-1.0, 1.0)]))); }
+    let n_stack = if a.thorough { 4000 } else { 600 };
+    for it in 0..n_stack {
+        let doms = mixed_domains();
+        let dom: Vec<(f64, f64)> = if it % 3 == 0 { doms[(it / 3) % doms.len()].clone() } else {
+            let dm = *rng.pick(&DOMAINS); vec![dm; rng.range(1, 4) as usize] };
+        let op = OPS[(it / 2) % OPS.len()];
+        let height = *rng.pick(&[1u64, 2, 2, 3, 3, 4]);
+        let pops: Vec<String> = (0..height).map(|_| {
+            let n = rng.range(0, 3);
+            tagged("pop", (0..n).map(|_| fs(&dom.iter().map(|&(lo, hi)| mixed_coord(&mut rng, lo, hi)).collect::<Vec<f64>>())))
+        }).collect();
+        emit(&mut runner, format!("(bnds {} stack {} {} {})", op, dom_s(&dom), rng.next() % 100000, tagged("stack", pops)));
+    }
+    // ---- 3d. the carrier operation `f64::rem_euclid` itself against the model's exact integer computation
+    {
+        let special = [0.0, -0.0, 5e-324, -5e-324, 2.2250738585072014e-308, 1.0, -1.0, 1.5, -2.5, 3.0, -3.0, 4.0, 0.1, -0.1, 1e-3,
+            1999999.998, 1e17, -1e17, 9007199254740993.0, 1e22, 1e300, -1e300, f64::MAX, -f64::MAX, f64::INFINITY, f64::NEG_INFINITY, f64::NAN];
+        for &x in &special { for &m in &special { emit(&mut runner, format!("(rem {} {})", fx(x), fx(m))); } }
+        let n_rem = if a.thorough { 20000 } else { 3000 };
+        for _ in 0..n_rem {
+            // random finite doubles over the whole exponent range, and pairs with close exponents
+            let x = f64::from_bits(rng.next() & !(0x7ffu64 << 52) | (rng.range(1, 2046) << 52));
+            let m = if rng.chance(1, 2) { f64::from_bits(rng.next() & !(0x7ffu64 << 52) | (rng.range(1, 2046) << 52)) }
+                    else { x.abs() * (rng.unit() * 4.0 + 1e-3) / 10f64.powi(rng.range(0, 20) as i32) };
+            emit(&mut runner, format!("(rem {} {})", fx(x), fx(m)));
+        }
+    }
     // ---- 4. initialisers: sizes 0..6, dimensions 1..6 (and 0), domains, stack heights, seeds
     let seeds = if a.thorough { 6 } else { 2 };
     for h in 0..=2u64 { emit(&mut runner, format!("(init empty 0 3 {} 0)", h)); }
@@ -413,6 +509,29 @@ fn main() {
             emit(&mut runner, format!("(init bits {} {} {} {} {})", n, dim, h, seed, fx(p)));
         }
     } } }
+    // `RandomBitstring::new_uniform`, `RandomSpread` over an integer element type
+    let nat_doms: [&[(u64, u64)]; 4] = [&[(0, 1)], &[(3, 10)], &[(100, 100000)], &[(0, 1), (10, 20), (7, 8), (1000, 1000000)]];
+    for n in 0..=6u64 { for dim in 0..=6u64 {
+        let seed = a.seed * 104729 + n * 31 + dim;
+        let h = (n + dim) % 3;
+        emit(&mut runner, format!("(init bitsu {} {} {} {})", n, dim, h, seed));
+        for dom in nat_doms {
+            if dom.len() == 1 || (dim >= 2 && dim as usize <= dom.len()) {
+                let d = &dom[..if dom.len() == 1 { 1 } else { dim as usize }];
+                emit(&mut runner, format!("(init spreadn {} {} {} {} {})", n, dim, h, seed,
+                    tagged("dom", d.iter().map(|&(x, y)| list([x.to_string(), y.to_string()])))));
+            }
+        }
+    } }
+    // sizes and dimensions beyond a byte (a truncating cast or a fixed-size buffer would show here)
+    for (n, dim) in [(255u64, 1u64), (256, 1), (257, 2), (1000, 2), (65537, 1), (1, 64), (2, 257), (3, 1000)] {
+        let seed = a.seed * 611 + n + dim;
+        emit(&mut runner, format!("(init spread {} {} 1 {} {})", n, dim, seed, dom_s(&[(-5.0, -2.0)])));
+        emit(&mut runner, format!("(init spreadn {} {} 1 {} (dom (3 10)))", n, dim, seed));
+        emit(&mut runner, format!("(init perm {} {} 1 {})", n, dim, seed));
+        emit(&mut runner, format!("(init bits {} {} 1 {} {})", n, dim, seed, fx(0.25)));
+        emit(&mut runner, format!("(init bitsu {} {} 1 {})", n, dim, seed));
+    }
     // probability outside [0,1]: `Bernoulli::new(p).unwrap()` — outside the documented domain
     for n in [0u64, 2] { for p in [-0.5, 1.5] {
         emit(&mut runner, format!("(init bits {} 3 0 1 {})", n, fx(p)));
